@@ -26,17 +26,19 @@ theorem inv_of_step (P : Cfg St Thread → Prop) {c0 c : Cfg St Thread} (h0 : P 
 
 /-! ### Thread classes -/
 
+/-- passed the running check with `running = true`, queue send not finished -/
 def inWin : Thread → Bool
-  | .prod _ pc _ _ => pc = .cas || pc = .inc
+  | .prod _ pc _ _ => pc = .cas || pc = .send
   | _ => false
 
+/-- has incremented `scheduledCount` and neither sent the object nor taken the increment back -/
 def atSend : Thread → Bool
-  | .prod _ pc _ _ => pc = .send
+  | .prod _ pc _ _ => pc = .chkRun || pc = .cas || pc = .send || pc = .undo
   | _ => false
 
 /-- holds a successful scheduling of `o` that has not been sent yet -/
 def holds (o : Nat) : Thread → Bool
-  | .prod _ pc cur _ => (pc = .inc || pc = .send) && cur = o
+  | .prod _ pc cur _ => pc = .send && cur = o
   | _ => false
 
 def bodyPre : Thread → Bool
